@@ -134,6 +134,12 @@ var WorldAtoms = []WorldAtom{
 		ss[1].Extra = append(ss[1].Extra, "scalar DateTime")
 		return ss
 	}, false},
+	{"underscore-names", func(ss []*SvcSpec) []*SvcSpec {
+		// names that start with one underscore are ordinary names (two are reserved)
+		ss[1].Query = append(ss[1].Query, "_meta: String")
+		ss[1].Types["N1"] = append(ss[1].Types["N1"], "_rev: Int")
+		return ss
+	}, false},
 	{"root-two-args", func(ss []*SvcSpec) []*SvcSpec {
 		ss[1].Query = append(ss[1].Query, "add(a: Int!, b: Int = 2): Int")
 		return ss
